@@ -480,7 +480,55 @@ def analyse(repo):
                 f.add("EWrite", ("unknown", "module-level " + type(node).__name__))
                 an.out.append(f)
         fns += an.out
+        fns += table_summaries(m, info)
     return fns
+
+
+def table_summaries(m, info):
+    """dispatch tables (module- or class-level dicts of functions, filled by a dict literal or by TABLE[k] = f at
+    import time) as pseudo-summaries named "table:<name>" whose effects are calls of their members, so that call
+    closures (Proofs/EffectClosure.v) follow calls made through a table.  A member that is not a plain function
+    name is emitted as an unknown call (fail-closed)."""
+    tables = {}
+
+    def member(v, cls):
+        if isinstance(v, ast.Name):
+            return ("ECallPsec", "%s.%s.%s" % (m, cls, v.id) if cls else "%s.%s" % (m, v.id))
+        if isinstance(v, ast.Attribute) and isinstance(v.value, ast.Name) and info.imports.get(v.value.id, ("", ""))[0] == "psec":
+            return ("ECallPsec", "%s.%s" % (info.imports[v.value.id][1], v.attr))
+        return ("ECallUnknown", "table member " + type(v).__name__)
+
+    def scan(body, cls):
+        for n in body:
+            tgt = val = None
+            if isinstance(n, ast.AnnAssign) and isinstance(n.target, ast.Name):
+                tgt, val = n.target.id, n.value
+            elif isinstance(n, ast.Assign) and len(n.targets) == 1:
+                t0 = n.targets[0]
+                if isinstance(t0, ast.Name):
+                    tgt, val = t0.id, n.value
+                elif isinstance(t0, ast.Subscript) and isinstance(t0.value, ast.Name) and t0.value.id in tables:
+                    tables[t0.value.id].append(member(n.value, cls))
+                    continue
+            if tgt is not None and isinstance(val, ast.Dict) and (not val.values or all(
+                    isinstance(v, (ast.Name, ast.Attribute, ast.Lambda, ast.Call)) for v in val.values)):
+                if not val.values or any(isinstance(v, (ast.Name, ast.Lambda)) for v in val.values):
+                    tables.setdefault(tgt, [])
+                    tables[tgt] += [member(v, cls) for v in val.values]
+
+    scan(info.tree.body, None)
+    for node in info.tree.body:
+        if isinstance(node, ast.ClassDef):
+            scan(node.body, node.name)
+    out = []
+    for name, members in tables.items():
+        if not members:
+            continue
+        f = Fn("table:" + name)
+        for e in members:
+            f.add(*e)
+        out.append(f)
+    return out
 
 
 def to_coq(fns):
